@@ -113,3 +113,11 @@ Fixpoint no_jump (max_delta : Qc) (xs : list Qc) : Prop :=
 (* every adjacent difference is at most `bound` in absolute value *)
 Definition jumps_le (bound : Qc) (ys : list Qc) : Prop := no_jump bound ys.
 Definition half (x : Qc) : Qc := x / (1 + 1).
+
+(* ---------------------------------------------------------------- linearity *)
+(* a * xs + b * ys, sample by sample *)
+Fixpoint lcomb (a b : Qc) (xs ys : list Qc) : list Qc :=
+  match xs, ys with
+  | x :: xs', y :: ys' => (a * x + b * y) :: lcomb a b xs' ys'
+  | _, _ => []
+  end.
